@@ -19,7 +19,8 @@ pub fn regex_term(ctx: &Ctx, token: Token) -> RegexTerm {
 }
 pub type IntConst = ValSpan<u32>;
 pub fn int_const(ctx: &Ctx, token: Token) -> IntConst {
-    IntConst::new(token.value.parse().unwrap(), Some(ctx.span()))
+    // The token is a sequence of digits, parsing can fail only on overflow.
+    IntConst::new(token.value.parse().unwrap_or(u32::MAX), Some(ctx.span()))
 }
 pub type FloatConst = ValSpan<f32>;
 pub fn float_const(ctx: &Ctx, token: Token) -> FloatConst {
